@@ -16,4 +16,7 @@ def run(ctx):
 
 
 def replay(ctx, path):
+    import json
+    if json.load(open(path))["replay"].get("kind") == "crash-run":
+        return c03.replay(ctx, path)
     return tower_common.replay(ctx, path)
